@@ -810,7 +810,8 @@ def load_only(ctx):
     R = 'LOAD-ONLY'
     ctx.rule(R, 'regenerate/env/run obtain their Environment only from '
              'Environment.load; load_toolchain resets the variables before '
-             'replaying the toolchain file when regenerating; the toolchain '
+             'replaying the toolchain file for every true member of '
+             'Regenerating (finite-domain evaluation of the guards); the toolchain '
              'path comes from the saved environment; install_dirs is a no-op '
              'when regenerating; project arguments are re-parsed from the '
              'saved extra_args')
